@@ -127,6 +127,7 @@ Section Accept.
       replace (o_maxs o <? blen c + blen d) with false by lia.
       rewrite Hrd. replace (blen c + blen d <? blen c) with false by lia.
       replace (blen c + blen d - blen c) with (blen d) by lia. rewrite take_app, drop_app.
+      replace (validate && (blen d <? blen d)) with false by (destruct validate; cbn [andb]; lia).
       assert (Hhash : (if validate then match hash_matches hok c p d with
                                         | Some true => Ok tt | Some false => Err EOther | None => Err EOracleMiss end
                        else Ok tt) = Ok tt).
@@ -140,12 +141,13 @@ Section Accept.
     hdrdec_good ro /\ blen (enc_header ro 1) <= o_maxh o /\ blen (enc_header ro 1) < two63 /\
     Forall (rd_ok wo (o_maxs o)) bs /\ (validate = true -> Forall (hash_good hok) bs).
 
-  Lemma inspect_payload_ok wo o validate ro bs :
+  Lemma inspect_payload_ok isv2 wo o validate ro bs :
     wf_opts wo -> content_ok wo o validate ro bs ->
-    inspect_payload hok hdrdec o validate (payload_opt ro bs) = Ok tt.
+    inspect_payload hok hdrdec isv2 o validate (payload_opt ro bs) = Ok tt.
   Proof.
     intros Hwo ((_ & Hd) & Hmax & H63 & Hbs & Hh). unfold inspect_payload, payload_opt.
     rewrite (read_header_ld _ _ _ _ _ Hd Hmax H63).
+    change (1 =? 1) with true. cbn [negb]. rewrite andb_false_r.
     apply (inspect_loop_sections wo); try assumption.
     pose proof (enc_sections_length (fun _ _ => None) (fun _ => None) bs). lia.
   Qed.
@@ -173,13 +175,14 @@ Section Accept.
     unfold inspect_check. destruct (w_v1 wo) eqn:Hv.
     - unfold layout. rewrite Hv. unfold payload_opt at 1.
       rewrite (read_header_ld _ _ _ _ _ Hd Hmax H63). cbn [N.eqb Pos.eqb].
-      fold (payload_opt ro bs). apply (inspect_payload_ok wo); assumption.
+      fold (payload_opt ro bs). apply (inspect_payload_ok false wo); assumption.
     - rewrite (layout_v2_eq wo ro bs fi Hv) at 1. rewrite pragma_ld.
       rewrite (read_header_ld _ pragma_body [] 2 _ Hpr); [|pose proof (blen_enc_header_ge ro); change (blen pragma_body) with 10; lia|change (blen pragma_body) with 10; unfold two63; lia].
       change (2 =? 1) with false. change (2 =? 2) with true. cbv iota.
+      replace (negb (ld_size (blen pragma_body) =? pragma_size)) with false by reflexivity. cbv iota.
       rewrite (layout_v2_drop11 wo ro bs fi Hv). rewrite (final_hdr_reads wo ro bs fi _ Hv Hfit).
       unfold final_hdr at 1 2. cbn [h_dsize h_doff].
-      rewrite (layout_v2_payload wo ro bs fi Hv). rewrite (inspect_payload_ok wo o validate ro bs Hwo Hc).
+      rewrite (layout_v2_payload wo ro bs fi Hv). rewrite (inspect_payload_ok true wo o validate ro bs Hwo Hc).
       unfold has_index, final_hdr. cbn [h_ioff].
       replace (51 + w_dpad wo + blen (payload_opt ro bs) + w_ipad wo =? 0) with false by lia. cbn [negb].
       rewrite (layout_v2_drop_ioff wo ro bs fi Hv). unfold idx_write.
